@@ -10,7 +10,7 @@ import ast
 
 import sympy as sp
 
-from .stencil import (Extractor, SV, Lab, TabRef, ARange, Boys, c, linear_terms, offsets, resolve_aranges, target_index_symbols,
+from .stencil import (store_outside_table, Extractor, SV, Lab, TabRef, ARange, Boys, c, linear_terms, offsets, resolve_aranges, target_index_symbols,
                       LabelMismatch)
 from .report import AnalysisError
 
@@ -208,7 +208,13 @@ def check_moment_kernel(repo, f, roles, findings, rule="S", ex=None, only=None):
     info = dict(stores=[], table=tab, ex=ex)
     n_axes = len(tab.labels)
     rec_stores = []
+    info["dead"] = []
     for s in ex.stores:
+        if s.table is tab and store_outside_table(s, tab):
+            # the caller asked for a table that does not reach this entry (e.g. order 0 for the overlap): the store writes into an
+            # empty slice / its loop is empty, so nothing this caller computes depends on it
+            info["dead"].append(s)
+            continue
         try:
             terms, const, tsyms, subs = stencil_of(ex, s)
         except LabelMismatch as lm:
